@@ -200,7 +200,7 @@ def feature_params(draw, kind, Dx, Dy, Dk, kappa=30.0):
     """LRBF / LSEM conditional p(y|x) = N(M [x; k(x)] + b, Sigma) (single component)."""
     p = {"kind": kind, "Dx": Dx, "Dy": Dy, "Dk": Dk,
          "M": draw(arr((1, Dy, Dx + Dk), -1.5, 1.5)), "b": draw(arr((1, Dy))),
-         "Sigma": draw(spd(1, Dy, kappa=kappa))}
+         "Sigma": draw(spd(1, Dy, kappa=kappa)), "ctor": draw(st.sampled_from(COND_CTORS))}
     if kind == "lrbf":
         p["mu"] = draw(arr((Dk, Dx), -1.5, 1.5))
         p["length_scale"] = draw(arr((Dk, Dx), 0.7, 2.5))
@@ -229,3 +229,14 @@ def het_params(draw, kind, Dx, Dy, Da, Dk, wscale=1.0, kappa=30.0, big_offsets=F
         W[:, 1] = np.where(W[:, 1] >= 0, W[:, 1] + 0.05 * wscale, W[:, 1] - 0.05 * wscale)
     return {"kind": kind, "Dx": Dx, "Dy": Dy, "Da": Da, "Dk": Dk, "wscale": wscale,
             "M": draw(arr((1, Dy, Dx), -1.5, 1.5)), "b": draw(arr((1, Dy))), "A": A, "W": W}
+
+
+
+@st.composite
+def maybe_update(draw, kind, R, D, kappa=100.0, p=0.25):
+    """With probability ~p: an in-place update (indices + replacement components of the same kind)."""
+    if draw(st.floats(0, 1)) >= p:
+        return None
+    k = draw(st.integers(1, R))
+    idx = list(draw(st.permutations(list(range(R))))[:k])
+    return {"idx": idx, "p": draw(measure_params(kind, k, D, kappa))}
